@@ -47,6 +47,10 @@ pub fn adj_for_ext_lat(
             .map(|x| (*x.0, RefCell::new(x.1.map(PrayerHour::new)))),
     );
 
+    // A Fajr/Isha defined by an interval exists whenever Shurooq/Maghrib does: apply the interval
+    // first so that the policies judge validity on the time that is actually reported.
+    adj_for_int(params, &hours);
+
     if can_adj(&hours, params.extreme_latitude_method) {
         match params.extreme_latitude_method {
             AngleBased => angle_based(params, &hours),
